@@ -165,6 +165,21 @@ def monomial(degrees, width):
     return b
 
 
+def canon_ids(objs):
+    """Module identity pattern: number the distinct objects by first appearance."""
+    seen = {}
+    return [seen.setdefault(id(o), len(seen)) for o in objs]
+
+
+def module_ids(cls, hidden):
+    """Target builder: the identity pattern of the modules of the Sequential as constant terms."""
+    def b(I):
+        o = I.instantiate(cls, n_input_units=2, n_output_units=3, actv=Builtin('ACTV'), hidden_units=tuple(hidden))
+        seq = o.attrs['NN'] if cls == 'FCNN' else o.attrs['residual'].attrs['NN']
+        return [('cst', k) for k in canon_ids(seq)]
+    return b
+
+
 MONO = {'Mono_int3_w2': (3, 2), 'Mono_list_w3': ((2, 0, 5), 3), 'Mono_int1_w1': (1, 1), 'Mono_dup_w2': ([4, 1, 4], 2)}
 
 K = dict(interp_cls=NetInterp)
@@ -182,13 +197,17 @@ TARGETS = [
     Target(name, F, monomial(d, w), leaves=[f'x{j}' for j in range(w)], **K) for name, (d, w) in MONO.items()
 ] + [
     Target('Mono_reject_empty', F, monomial((), 1), **K),     # the constructor must raise
+    # module identity: every appended module (each Linear, each actv() call) is a fresh object
+    Target('FCNN_ids_h3', F, module_ids('FCNN', (4, 5, 6)), **K),
+    Target('FCNN_ids_h0', F, module_ids('FCNN', ()), **K),
+    Target('Resnet_ids_h2', F, module_ids('Resnet', (4, 5)), **K),
 ]
 
 
 # ----------------------------------------------------------------------------------------------
 # source-level interpretation of the constructors for one concrete configuration
 
-def interp_layers(repo, cls, n_in, n_out, nhu=None, nhl=None, hidden='absent'):
+def interp_layers(repo, cls, n_in, n_out, nhu=None, nhl=None, hidden='absent', with_ids=False):
     """Layer descriptors [('L', in, out, bias) | ('A',)] that the *source text* of
     FCNN.__init__ / Resnet.__init__ builds for this configuration (pyfront abstract
     interpretation; the library is not imported).  Returns (layers, skip|None)."""
@@ -198,9 +217,11 @@ def interp_layers(repo, cls, n_in, n_out, nhu=None, nhl=None, hidden='absent'):
         kw['hidden_units'] = hidden
     o = I.instantiate(cls, **kw)
     if cls == 'FCNN':
-        return [l.as_tuple() for l in o.attrs['NN']], None
+        out = [l.as_tuple() for l in o.attrs['NN']], None
+        return out + (canon_ids(o.attrs['NN']),) if with_ids else out
     res = o.attrs['residual']
     skip = o.attrs['skip_connection']
     if not isinstance(res, Obj) or not isinstance(skip, LayerDesc):
         raise TranslationError(F, 0, 'Resnet: residual / skip_connection are not what the model expects')
-    return [l.as_tuple() for l in res.attrs['NN']], skip.as_tuple()
+    out = [l.as_tuple() for l in res.attrs['NN']], skip.as_tuple()
+    return out + (canon_ids(res.attrs['NN']),) if with_ids else out
